@@ -308,6 +308,14 @@ func vC14Configs(tier string) []vVecCfg {
 			out = append(out, vVecCfg{Kind: "ivfpq", Metric: metric, Dim: 2, NList: 2, M: 1, NBits: nb, Train: -3})
 		}
 	}
+	// wide subspaces (dim/M = 8, 10, 16, 24): per-subspace loops longer than any unrolling width
+	for _, metric := range metrics {
+		out = append(out, vVecCfg{Kind: "pq", Metric: metric, Dim: 8, M: 1, NBits: 2, Train: -2})
+		out = append(out, vVecCfg{Kind: "pq", Metric: metric, Dim: 20, M: 2, NBits: 3, Train: -2})
+		out = append(out, vVecCfg{Kind: "ivfpq", Metric: metric, Dim: 16, NList: 2, M: 2, NBits: 2, Train: -2})
+		out = append(out, vVecCfg{Kind: "ivfpq", Metric: metric, Dim: 24, NList: 2, M: 1, NBits: 1, Train: -2})
+		out = append(out, vVecCfg{Kind: "pq", Metric: metric, Dim: 32, M: 2, NBits: 2, Train: -2})
+	}
 	// larger numbers of subspaces (M = 3..8, one or two components each): table / code
 	// indexing per subspace
 	for _, metric := range metrics {
